@@ -32,7 +32,24 @@ Definition sqrt_rel_ok (k : Z) (p : Z) (r x : Q) : bool :=
   Qle_bool 0 r && Qle_bool (x * ((1 - eps) * (1 - eps))) (r * r) && Qle_bool (r * r) (x * ((1 + eps) * (1 + eps))).
 
 (* fam 8: dd (2 components), fam 9: qd (4 components); args = components of a then of b *)
+(* C03: construction / assignment from a native value: exact whenever the source is representable -- every 64-bit integer, float and
+   double is (53 < 106 bits) -- i.e. the components must sum exactly to the source and be normalised *)
+Definition judge_dd_from (ncomp : nat) (op : Z) (args res : list Z) : verdict :=
+  let src : option Q :=
+    if Z.eqb op OP_from_int then Some (inject_Z (int_decode true (nth0 args 0) (nth0 args 1))) else
+    if Z.eqb op OP_from_uint then Some (inject_Z (int_decode false (nth0 args 0) (nth0 args 1))) else
+    match (if Z.eqb op OP_from_f64 then f64_decode (nth0 args 0) else f32_decode (nth0 args 0)) with
+    | Fin s q => Some (if s then (- q)%Q else q)
+    | _ => None
+    end in
+  match src, qsum res with
+  | Some x, Some r => mkV (Nat.eqb (length res) ncomp && dd_normalised res && Qeq_bool r x) [] true
+  | Some _, None => mkV false [] true
+  | None, _ => mkV true res false
+  end.
+
 Definition judge_dd (ncomp : nat) (p : Z) (cfg : list Z) (op : Z) (args res : list Z) : verdict :=
+  if Z.eqb op OP_from_int || Z.eqb op OP_from_uint || Z.eqb op OP_from_f64 || Z.eqb op OP_from_f32 then judge_dd_from ncomp op args res else
   let skip := mkV true res false in
   let a := firstn ncomp args in let b := firstn ncomp (skipn ncomp args) in
   match qsum a, qsum b, qsum res with
